@@ -7,11 +7,23 @@ seed = os.path.abspath(sys.argv[1])
 ids = sys.argv[2:]
 meta = json.load(open(os.path.join(seed, "meta.json")))
 prop = meta.get("property")
-tmp = tempfile.mkdtemp(prefix="seedeval-", dir="/tmp")
+# SEED_WORK=<dir>: a persistent scratch directory (repo copy + cargo target) reused across seeds by the caller (incremental builds);
+# the caller removes it. Without it a fresh directory is made and removed here.
+persistent = os.environ.get("SEED_WORK")
+tmp = persistent or tempfile.mkdtemp(prefix="seedeval-", dir="/tmp")
+os.makedirs(tmp, exist_ok=True)
 res = {"seed": seed, "property": prop}
 try:
     repo = os.path.join(tmp, "repo")
-    subprocess.run(["rsync", "-a", "--exclude", "target", "--exclude", ".git", "/repo/", repo + "/"], check=True)
+    rs = subprocess.run(["rsync", "-ai", "--checksum", "--delete", "--exclude", "target", "--exclude", ".git", "/repo/", repo + "/"], check=True, stdout=subprocess.PIPE, text=True)
+    # files restored to their pristine content keep the source's OLD mtime: cargo would take the previous (patched) build for fresh
+    for line in rs.stdout.splitlines():
+        if line.startswith(">f"):
+            fp = os.path.join(repo, line.split(" ", 1)[1].strip())
+            if os.path.exists(fp):
+                os.utime(fp, None)
+    for stale in glob.glob(os.path.join(tmp, "facts-*")) + [os.path.join(tmp, "evid")]:
+        shutil.rmtree(stale, ignore_errors=True)
     env = dict(os.environ, CARGO_TARGET_DIR=os.path.join(tmp, "tgt"), CARGO_NET_OFFLINE="true")
     demos = [f for f in glob.glob(os.path.join(seed, "*.rs"))]
 
@@ -28,7 +40,17 @@ try:
     def run_demo(names):
         out = {}
         for crate, n in names:
-            feats = ["-F", "std"] if crate == "core" else ["-F", "std"]
+            feats = ["-F", "std"]
+            # a seed that only manifests with another float back-end says so in its RUN.md
+            try:
+                import re
+                run_md = open(os.path.join(seed, "RUN.md")).read()
+                cmds = [l for l in run_md.splitlines() if l.strip().startswith("cargo test") and "--test" in l]
+                alt = [m_.group(1) for l in cmds for m_ in [re.search(r"--no-default-features\s+--features[ =]+(libm|mm)", l)] if m_]
+                if alt and crate == "core" and not any(re.search(r"--features[ =]+std", l) for l in cmds):
+                    feats = ["--no-default-features", "-F", alt[0]]
+            except OSError:
+                pass
             r = subprocess.run(["cargo", "test", "--offline", "-q", "-p", "retrofire-" + crate, "--test", n] + feats,
                                cwd=repo, env=env, stdout=subprocess.PIPE, stderr=subprocess.STDOUT, text=True)
             tail = [l for l in r.stdout.splitlines() if l.startswith("test result") or "error" in l.lower()][-3:]
@@ -64,8 +86,10 @@ try:
         e = dict(os.environ, VERIF_REPO=repo, VERIF_EVID_DIR=os.path.join(tmp, "evid"), VERIF_NO_SELFTEST="1")
         e.pop("VERIF_DEV_FACTS", None)
         # one dump of every config shared by all checks of this seed
-        for cfg in ("ws", "std", "libm", "mm", "none"):
-            subprocess.run(["/verif/sa/dump.sh", cfg, os.path.join(tmp, "facts-" + cfg)], env=e, stdout=subprocess.DEVNULL, stderr=subprocess.DEVNULL)
+        procs = [subprocess.Popen(["/verif/sa/dump.sh", cfg, os.path.join(tmp, "facts-" + cfg)], env=e, stdout=subprocess.DEVNULL, stderr=subprocess.DEVNULL)
+                 for cfg in ("ws", "std", "libm", "mm", "none", "mm-rel", "none-rel", "libm-rel", "std-rel")]
+        for pr in procs:
+            pr.wait()
         e["VERIF_DEV_FACTS"] = tmp
         for i in (ids or [prop]):
             c = subprocess.run(["/verif/check", i, "--tier", "quick"], env=e, stdout=subprocess.PIPE, stderr=subprocess.STDOUT, text=True)
@@ -73,4 +97,5 @@ try:
         res["checks"] = checks
     print(json.dumps(res, indent=1))
 finally:
-    shutil.rmtree(tmp, ignore_errors=True)
+    if not persistent:
+        shutil.rmtree(tmp, ignore_errors=True)
